@@ -442,6 +442,13 @@ def _make_notif(env, spec):
 
 
 # -- interpreter ---------------------------------------------------------------------
+#: single operations of the statement of C20 (composite steps contain several of them)
+YIELDING_OPS = {'wait', 'setflag', 'settracked', 'put', 'get', 'close', 'transfer', 'resource',
+                'await_task'}
+#: results of steps that did not perform the operation (refused by the primitive or skipped)
+NOT_PERFORMED = ('closed', 'skipped', 'notask')
+
+
 async def run_steps(env, ctx, steps):
     for step in steps:
         await exec_step(env, ctx, step)
@@ -452,12 +459,23 @@ async def exec_step(env, ctx, step):
     sid = step.get('id')
     env.log(ctx.name, 'start', op, sid)
     env.sess.stats['op:' + op] += 1
+    turn = env.sess.n
     try:
         result = await HANDLERS[op](env, ctx, step)
     except BaseException as exc:  # noqa: B902
         name = env.observe(ctx, step, exc)
         env.log(ctx.name, 'exc', op, sid, name)
         raise
+    if op in YIELDING_OPS and result not in NOT_PERFORMED and env.sess.armed and env.sess.stack:
+        # C20: an operation that waits for, signals or transfers something completes only
+        # after the activity was suspended at least once - never within one activation
+        env.sess.stats['c20_ops_checked'] += 1
+        if env.sess.n == turn:
+            env.sess.violation(
+                'c20:completed-without-suspending:' + op,
+                '%s: %s (step %s, %r) completed within the activation in which it was issued, '
+                'at %r' % (ctx.name, op, sid, {k: v for k, v in step.items()
+                                               if k not in ('op', 'id', 'body')}, env.sess.now()))
     env.log(ctx.name, 'end', op, sid, result)
 
 
